@@ -409,6 +409,8 @@ def raw_guards(repo: Repo, rep, P: str, rule: str):
             continue
         f = norm(c.func)
         name = bound.get(f) if isinstance(c.func, ast.Name) else (c.func.attr if isinstance(c.func, ast.Attribute) else None)
+        if isinstance(c.func, ast.Call) and norm(c.func.func) == "getattr" and len(c.func.args) >= 2 and isinstance(c.func.args[1], ast.Constant):
+            name = str(c.func.args[1].value)          # getattr(t, "from_raw_value", int)(raw) called in place
         if name in ("from_raw_value",) or f.startswith(GUARD_IGNORED) or f in GUARD_IGNORED:
             continue
         if name is None:
@@ -489,6 +491,73 @@ def raw_guards(repo: Repo, rep, P: str, rule: str):
 
 
 # ------------------------------------------------------------------------------------ R3
+def _devirtualize_range_calls(repo: Repo, fn: ast.FunctionDef) -> ast.FunctionDef:
+    """`return t.m(args)` with `m` a method of Range that some subclasses override reads as the isinstance ladder it dispatches to
+    (most derived class first), each arm the method's body as an expression over `t` and the arguments.  The names of the methods
+    read through are left in `fn._devirtualized`.  Calls whose implementations are not single expressions stay as they are."""
+    from .. import inline
+    rng = repo.cls("Range", module="rv.controller")
+    family = [rng] + [c for c in repo.subclasses("Range") if c.file is rng.file]
+    done: set = set()
+
+    def impl(k: ClassInfo, m: str, recv: ast.expr, args: List[ast.expr]) -> Optional[ast.expr]:
+        f = k.methods.get(m)
+        if f is None or any(d for d in f.decorator_list):
+            return None
+        ps = [a.arg for a in f.args.args]
+        if len(ps) != len(args) + 1 or f.args.vararg or f.args.kwarg or f.args.kwonlyargs:
+            return None
+        e = inline.as_expression(inline.normalize(repo, k, f))
+        if e is None:
+            return None
+        return inline._Rename(dict(zip(ps, [recv] + list(args)))).visit(copy.deepcopy(e))
+
+    def ladder(call: ast.Call) -> Optional[List[ast.stmt]]:
+        recv, m = call.func.value, call.func.attr
+        if call.keywords or any(isinstance(a, ast.Starred) for a in call.args) or m not in rng.methods:
+            return None
+        owners = [k for k in family if m in k.methods]
+        # most derived first: a class comes before its bases
+        owners.sort(key=lambda k: -len(repo.mro(k)))
+        arms = []
+        for k in owners:
+            e = impl(k, m, recv, call.args)
+            if e is None:
+                return None
+            arms.append((k, e))
+        if not arms or arms[-1][0] is not rng:
+            return None
+        stmts: List[ast.stmt] = [ast.Return(value=arms[-1][1])]
+        for k, e in reversed(arms[:-1]):
+            test = ast.Call(func=ast.Name(id="isinstance", ctx=ast.Load()), args=[copy.deepcopy(recv), ast.Name(id=k.name, ctx=ast.Load())], keywords=[])
+            stmts = [ast.If(test=test, body=[ast.Return(value=e)], orelse=stmts)]
+        done.add(m)
+        return stmts
+
+    def block(stmts: List[ast.stmt]) -> List[ast.stmt]:
+        out: List[ast.stmt] = []
+        for st in stmts:
+            if isinstance(st, ast.Return) and isinstance(st.value, ast.Call) and isinstance(st.value.func, ast.Attribute) \
+                    and isinstance(st.value.func.value, ast.Name):
+                r = ladder(st.value)
+                if r is not None:
+                    for x in r:
+                        ast.copy_location(x, st)
+                        ast.fix_missing_locations(x)
+                    out.extend(r)
+                    continue
+            for fld in ("body", "orelse"):
+                sub = getattr(st, fld, None)
+                if isinstance(sub, list) and sub and isinstance(sub[0], ast.stmt) and not isinstance(st, (ast.FunctionDef, ast.ClassDef)):
+                    setattr(st, fld, block(sub))
+            out.append(st)
+        return out
+    new = copy.deepcopy(fn)
+    new.body = block(new.body)
+    new._devirtualized = done
+    return new
+
+
 def pattern_value(repo: Repo, rep, P: str):
     ctl = repo.cls("Controller", module="rv.controller")
     from .. import inline
@@ -498,6 +567,7 @@ def pattern_value(repo: Repo, rep, P: str):
     rep.func("rv.controller.Controller.pattern_value")
     params = [a.arg for a in fn.args.args if a.arg != "self"]
     vparam = params[1] if len(params) > 1 else "value"
+    fn = _devirtualize_range_calls(repo, inline.split_ifexp_returns(fn))
     g = CFG(fn)
     paths = g.paths(g.entry, [g.exit], max_visits=1, limit=200, labels_excluded={"exc", "reraise", "nomatch"})
     if not paths:
@@ -601,6 +671,12 @@ def pattern_value(repo: Repo, rep, P: str):
     cr = repo.cls("CompactRange", module="rv.controller")
     if repo.base_names(cr) == ["Range"] and not cr.methods:
         rep.ok(f"{P}.R3", f"{rel}:CompactRange", "class CompactRange(Range): (no overrides)", nontrivial=False)
+    elif repo.base_names(cr) == ["Range"] and set(cr.methods) <= getattr(fn, "_devirtualized", set()):
+        rep.ok(f"{P}.R3", f"{rel}:CompactRange", f"class CompactRange(Range): overrides {sorted(cr.methods)}, read through in pattern_value",
+               nontrivial=False)
+    elif repo.base_names(cr) == ["Range"]:
+        rep.inconclusive(f"{P}.R3", f"{rel}:CompactRange", f"methods {sorted(cr.methods)}",
+                         "CompactRange overrides methods of Range that this rule does not read through", rel)
     else:
         rep.violation(f"{P}.R3", f"{rel}:CompactRange", f"bases {repo.base_names(cr)}, methods {sorted(cr.methods)}",
                       "CompactRange must be a plain marker subclass of Range", rel)
@@ -645,8 +721,23 @@ def dependent_parent(repo: Repo, rep, P: str):
         paths = []
         problems = []
         picked = -1
+    defs0 = defs
     for path in paths or []:
+        if not g.feasible(path):
+            continue                  # e.g. `selector = None` followed by the `selector is not None` branch
         known = c14._facts(c14._path_tests(g, path))
+        # locals as this path binds them (a local assigned in both arms of an if has one definition per path)
+        defs = dict(defs0)
+        for nid_, lab_ in path:
+            nd_ = g.nodes[nid_]
+            if nd_.kind == "stmt" and isinstance(nd_.ast, ast.Assign) and len(nd_.ast.targets) == 1 and isinstance(nd_.ast.targets[0], ast.Name) and lab_ != "exc":
+                defs[nd_.ast.targets[0].id] = nd_.ast.value
+        # a test that mentions the loaded set / the stored values in a form these literals do not cover is not read
+        key_names = {n for n, d in defs.items() if norm(d) in key_forms}
+        read_forms = not_loaded | {guards.canon_text(f"self.ctl_name in {L}"), guards.canon_text(L)} | \
+            {f"{n} is None" for n in key_names} | {f"{n} is not None" for n in key_names} | \
+            {f"{kf} is None" for kf in key_forms} | {f"{kf} is not None" for kf in key_forms}
+        unread = sorted(f for f in known if ("controllers_loaded" in f or "controller_values" in f or any(n in f for n in key_names)) and f not in read_forms)
         rets = [g.nodes[nid].ast for nid, _ in path if g.nodes[nid].kind == "stmt" and isinstance(g.nodes[nid].ast, ast.Return)]
         val = rets[-1].value if rets else None
         if isinstance(val, ast.Subscript) and norm(val.value) == "self.range_map":
@@ -656,14 +747,18 @@ def dependent_parent(repo: Repo, rep, P: str):
                 problems.append(("bad", norm(val), "range_map must be indexed by the unit controller's current value"))
                 continue
             need = {guards.canon_text(f"self.ctl_name in {L}"), guards.canon_text(f"{norm(k)} is not None")}
-            if not need <= known:
+            if not need <= known and unread:
+                problems.append(("?", norm(val), f"tests not read: {unread[:2]}"))
+            elif not need <= known:
                 problems.append(("bad", norm(val), f"a range is selected from range_map without establishing {sorted(need - known)} "
                                  "(the unit controller must be loaded and hold a value)"))
             else:
                 picked += 1
         elif val is not None and norm(val) == "self.default":
             keys_none = {f"{n} is None" for n, d in defs.items() if norm(d) in key_forms}
-            if not ((not_loaded | keys_none) & known):
+            if not ((not_loaded | keys_none) & known) and unread:
+                problems.append(("?", "return self.default", f"tests not read: {unread[:2]}"))
+            elif not ((not_loaded | keys_none) & known):
                 problems.append(("bad", "return self.default", "the default range may be used only while the unit controller is not loaded "
                                  f"or holds no value; this path knows only {sorted(known)}"))
         else:
